@@ -342,7 +342,11 @@ pub struct GenCrate {
 }
 
 pub const REPO_MACRO: &str = "/repo/bitbybit";
-pub const VERIF: &str = "/verif";
+/// root of the framework tree the generated crates take `rt` and the lock file from: /verif, or a frozen copy of
+/// it (BBV_VERIF_ROOT) when seeded changes are evaluated against the framework as it stood at an earlier commit
+pub fn verif_root() -> String {
+    std::env::var("BBV_VERIF_ROOT").unwrap_or_else(|_| "/verif".to_string())
+}
 
 fn macro_path() -> String {
     std::env::var("BBV_MACRO_PATH").unwrap_or_else(|_| REPO_MACRO.to_string())
@@ -376,7 +380,7 @@ pub fn write_b_workspace(dir: &Path, crate_prefix: &str, modules: &[(String, Str
             "[package]\nname = \"{}\"\nversion = \"0.0.0\"\nedition = \"2021\"\n\n[dependencies]\nbitbybit = {{ path = \"{}\" }}\narbitrary-int = \"1.3.0\"\nrt = {{ path = \"{}/engine/rt\" }}\n",
             name,
             macro_path(),
-            VERIF
+            verif_root()
         );
         std::fs::write(cdir.join("Cargo.toml"), toml).unwrap();
         members.push(format!("\"{}\"", name));
@@ -387,7 +391,7 @@ pub fn write_b_workspace(dir: &Path, crate_prefix: &str, modules: &[(String, Str
         members.join(", ")
     );
     std::fs::write(dir.join("Cargo.toml"), ws).unwrap();
-    std::fs::copy(format!("{}/engine/gen.Cargo.lock", VERIF), dir.join("Cargo.lock")).ok();
+    std::fs::copy(format!("{}/engine/gen.Cargo.lock", verif_root()), dir.join("Cargo.lock")).ok();
     crates
 }
 
@@ -440,5 +444,5 @@ pub fn write_v_crate_n(dir: &Path, name: &str, files: &[(String, String)], no_st
         members.join(", ")
     );
     std::fs::write(dir.join("Cargo.toml"), ws).unwrap();
-    std::fs::copy(format!("{}/engine/gen.Cargo.lock", VERIF), dir.join("Cargo.lock")).ok();
+    std::fs::copy(format!("{}/engine/gen.Cargo.lock", verif_root()), dir.join("Cargo.lock")).ok();
 }
